@@ -134,6 +134,8 @@ def cfgStep (σ : St) (profile : String) (obs : List String) : St × List Msg :=
            [.propfail "print_load_stable" "groupby-empty-override" "a route's explicit `group_by: []` is dropped by Config.String(): the reloaded route inherits its parent's grouping"]
          else [.propfail "print_load_stable" "tree" s!"routing tree changes across print -> load"])
         ++ (if x1 = x2 then [] else [.propfail "print_load_stable" "rules-or-intervals" "inhibit rules / time intervals change across print -> load"])
+        -- the model of the code as it is predicts exactly the omitempty loss
+        ++ expectEq "stable.tree" (showTree ((parseTree itree).map printLoad)) (showTree (parseTree tree2))
     let tags : List Msg :=
       [.tag s!"profile:{profile}", .tag s!"class:{m}"] ++
       (if canaries ≠ "-" then [.tag "secrets:checked"] else []) ++
